@@ -24,7 +24,7 @@ ASSUMPTIONS = [
     "the reference for one axis is piecewise-linear interpolation between adjacent masters, for two axes bilinear interpolation between four corner masters (what the OpenType variation model yields for these master layouts)",
 ]
 N = {"quick": (8, 150), "thorough": (16, 900)}
-FLOORS = {"rule-fires": 0.05, "non-master-location": 0.3, "intermediate-master": 0.12, "sparse-master": 0.05, "round_geometry": 0.15, "master-without-kerning": 0.03}
+FLOORS = {"rule-fires": 0.05, "non-master-location": 0.242, "intermediate-master": 0.12, "sparse-master": 0.05, "round_geometry": 0.103, "master-without-kerning": 0.03}  # a third of the measured frequency: a starving generator is a harness error, sampling noise is not
 
 
 @st.composite
